@@ -670,6 +670,13 @@ class RecArray:
     def __getitem__(self, roi):
         return RecView(self, roi)
 
+    def __setitem__(self, roi, value):
+        # xx[...] = v : the whole array is overwritten (what was copied into it before is gone)
+        if roi is Ellipsis or roi == slice(None):
+            self.fill, self.writes = value, []
+            return
+        raise Unsupported("partial assignment into a recording array")
+
 
 class FakeBlock:
     def __init__(self, name, shape, dtype):
@@ -852,6 +859,12 @@ class NP:
         if _has_sym(list(shape)):
             return RecArray(shape, fill, dtype)
         return real_np.full(shape, fill, dtype=dtype)
+
+    @staticmethod
+    def empty(shape, dtype=None):
+        if _has_sym(list(shape)):
+            return RecArray(shape, None, dtype)
+        return real_np.empty(shape, dtype=dtype)
 
     @staticmethod
     def copyto(dst, src, casting="same_kind"):
